@@ -181,6 +181,24 @@ def alpha(model, stored):
     return {"fitted": bool(getattr(model, "is_fitted", False)), "mdq": frozenset(kinds), "stored": bool(stored)}
 
 
+def poor_by_statistics(family, m):
+    """(True | False | None if within 5 % of a threshold, text): is the fit a poor fit by the model's own published statistics and
+    its own thresholds - independent of what the model put into its disqualification list"""
+    s = m.settings
+    if family == "hourly":
+        bm = m.baseline_metrics
+        pairs = [(bm.cvrmse_adj, s.cvrmse_threshold), (bm.pnrmse_adj, s.pnrmse_threshold)]
+        text = f"cvrmse_adj={bm.cvrmse_adj!r} (threshold {s.cvrmse_threshold}), pnrmse_adj={bm.pnrmse_adj!r} (threshold {s.pnrmse_threshold})"
+        if any(v is not None and abs(v - t) <= 0.05 * t for v, t in pairs):
+            return None, text
+        return not any(v is not None and v < t for v, t in pairs), text
+    v, t = float(m.error["CVRMSE"]), float(s.cvrmse_threshold)
+    text = f"CVRMSE={v!r} (threshold {t})"
+    if abs(v - t) <= 0.05 * t:
+        return None, text
+    return v > t, text
+
+
 def core(val):
     return (val["fitted"], val["kind"], val["mdq"], val["stored"])
 
@@ -223,14 +241,20 @@ def run_case(case):
         try:
             probe = new_model(family, settings)
             probe.fit(data_obj, ignore_disqualification=True)
-            realised_poor = "poorfit" in alpha(probe, False)["mdq"]
+            gate_poor = "poorfit" in alpha(probe, False)["mdq"]
+            realised_poor, stat = poor_by_statistics(family, probe)
         except Exception as exc:
             viol.append({"clause": "fit_outcome", "key": dict(key0, act="Fit", want="model", got="Other"),
                          "detail": f"{family}/{vname}: fit(ignore_disqualification=True) raised {type(exc).__name__}: {str(exc)[:200]}"})
             return {"behaviour": [family, kind, vname, "fit_raises"], "violations": viol}
-        if realised_poor != (kind in ("poor", "dq_poor")):
-            err = probe.error.get("CVRMSE") if hasattr(probe, "error") else None
-            return {"rejected": f"{family}/{vname}: fit {'is' if realised_poor else 'is not'} a poor fit (CVRMSE={err}) but was meant to realise kind {kind}"}
+        if realised_poor is None or realised_poor != (kind in ("poor", "dq_poor")):
+            return {"rejected": f"{family}/{vname}: fit {'is' if realised_poor else 'is not (clearly)'} a poor fit ({stat}) but was meant to realise kind {kind}"}
+        if gate_poor != realised_poor:
+            # the model's own published statistics against its own thresholds say one thing, its disqualification list the other
+            viol.append({"clause": "poor_fit_not_disqualified" if realised_poor else "disqualified_without_missing_threshold",
+                         "key": dict(key0, variant=vname),
+                         "detail": f"{family}/{vname}: {stat}; model.disqualification = {[w.qualified_name for w in probe.disqualification]}"})
+            return {"behaviour": [family, kind, vname, "gate_disagrees_with_statistics"], "violations": viol}
     pin_cache = {}
 
     def pin(dtype, tz):
